@@ -11,6 +11,9 @@
 (*   df[s]    the Defaults object of s: the names that have a default and the    *)
 (*            grammar it checks the names against (owner)                       *)
 (*   val[s]   the lazily compiled validator: the elements it was compiled from  *)
+(*            and the required names compiled into it, if any (bake, req)       *)
+(*   dirty[s] PydanticGrammar: the "model needs rebuild" flag; val[s] is then   *)
+(*            the model as last built (it is kept, not dropped, by an edit)     *)
 (*   sch[s]   the lazily built, cached schema dictionary (properties, required) *)
 (*   breq[s]  the schema builder's own required set (None until a schema with   *)
 (*            "required" or an object was added to it)                          *)
@@ -28,12 +31,23 @@
 (* CopyDefaults = "shallow" installs copy(defaults) in a copy (Defaults.__copy__ *)
 (* keeps the source grammar) instead of re-binding: DefaultsBound fails at Copy  *)
 (* and DefaultsWellFormed after  Copy; Delete in the copy; SetDefault there.     *)
+(* BakeRequired = TRUE compiles the required names of the moment into the        *)
+(* validator (no edit of the required names resets it): ValidateMeaning fails    *)
+(* after  Validate; EditRequired(remove); and is only seen by a validation of    *)
+(* data lacking the name.  Class = "pydantic" replaces the drop-and-recompile    *)
+(* protocol by the rebuild flag; CopyFlag = "inherit" gives a copy (which owns a *)
+(* new, empty model filled with the fields of the source) the flag of its source *)
+(* instead of setting it: ValidationCurrent fails after  Validate; Copy  and     *)
+(* after  Pickle; Copy.                                                          *)
 EXTENDS Naturals, FiniteSets, TLC
 
-CONSTANTS Names, Types, Rules, RenameResets, CopyDefaults, MaxOps
+CONSTANTS Names, Types, Rules, RenameResets, CopyDefaults, MaxOps,
+          Class,          \* "json" | "pydantic"
+          BakeRequired,   \* the compiled validator includes the required names of the moment
+          CopyFlag        \* "dirty" | "inherit": the rebuild flag of a copied pydantic grammar
 
-VARIABLES el, heap, rn, df, val, sch, breq, live, nops
-vars == <<el, heap, rn, df, val, sch, breq, live, nops>>
+VARIABLES el, heap, rn, df, val, dirty, sch, breq, live, nops
+vars == <<el, heap, rn, df, val, dirty, sch, breq, live, nops>>
 
 Slots == {1, 2}
 Absent == 0                                   \* el[s][n] = 0: n is not an element
@@ -41,8 +55,11 @@ Elems == [Names -> Types \cup {Absent}]
 Dom(e) == {n \in Names : e[n] # Absent}
 NoElems == [n \in Names |-> Absent]
 Code == Rules = "code"
+Json == Class = "json"
+Pyd == Class = "pydantic"
 
-NoVal == [some |-> FALSE, e |-> NoElems]
+NoVal == [some |-> FALSE, e |-> NoElems, bake |-> FALSE, req |-> {}]
+EmptyModel == [NoVal EXCEPT !.some = TRUE]       \* pydantic: a model without fields (validates anything)
 NoSch == [some |-> FALSE, e |-> NoElems, req |-> {}, has |-> FALSE]
 NoneB == [none |-> TRUE, set |-> {}]           \* builder required: None
 SetB(S) == [none |-> FALSE, set |-> S]
@@ -53,14 +70,17 @@ Init == /\ el = [s \in Slots |-> NoElems]
         /\ heap = [i \in Slots |-> {}]
         /\ rn = [s \in Slots |-> [ref |-> s, owner |-> s]]
         /\ df = [s \in Slots |-> [names |-> {}, owner |-> s]]
-        /\ val = [s \in Slots |-> NoVal]
+        /\ val = [s \in Slots |-> IF Pyd THEN EmptyModel ELSE NoVal]
+        /\ dirty = [s \in Slots |-> FALSE]
         /\ sch = [s \in Slots |-> NoSch]
         /\ breq = [s \in Slots |-> NoneB]
         /\ live = [s \in Slots |-> s = 1]
         /\ nops = 0
 
 Tick == nops < MaxOps /\ nops' = nops + 1
-Reset(s) == val' = [val EXCEPT ![s] = NoVal] /\ sch' = [sch EXCEPT ![s] = NoSch]     \* __init_dependencies
+(* an edit of the elements: JSON __init_dependencies drops validator and schema; pydantic raises the flag *)
+Reset(s) == IF Pyd THEN dirty' = [dirty EXCEPT ![s] = TRUE] /\ UNCHANGED <<val, sch>>
+            ELSE val' = [val EXCEPT ![s] = NoVal] /\ sch' = [sch EXCEPT ![s] = NoSch] /\ UNCHANGED dirty
 
 (* RequiredNames.add checks the name against the bound grammar: the call raises when it is not there  *)
 CanRequire(s, e, n) == LET o == rn[s].owner IN IF o = s THEN n \in Dom(e) ELSE n \in Dom(el[o])
@@ -83,12 +103,12 @@ AddNamed(s, n) ==
        /\ CanRequire(s, e, n)
        /\ el' = [el EXCEPT ![s] = e]
   /\ heap' = [heap EXCEPT ![rn[s].ref] = @ \cup {n}]
-  /\ breq' = [breq EXCEPT ![s] = SetB({})]
+  /\ breq' = [breq EXCEPT ![s] = IF Json THEN SetB({}) ELSE @]
   /\ Reset(s) /\ UNCHANGED <<rn, df, live>>
 
 (* update_from_schema({properties: {n: t}, required: [n] if r}) *)
 AddSchema(s, n, t, r) ==
-  /\ live[s] /\ Tick
+  /\ Json /\ live[s] /\ Tick
   /\ LET e == [el[s] EXCEPT ![n] = t]
          b == IF ~r THEN breq[s]                                  \* genson: intersects "required"
               ELSE IF breq[s].none THEN SetB({n}) ELSE SetB(breq[s].set \cap {n})
@@ -107,7 +127,7 @@ Rename(s, n, m) ==
        /\ el' = [el EXCEPT ![s] = e]
   /\ heap' = [heap EXCEPT ![rn[s].ref] = IF n \in @ THEN (@ \ {n}) \cup {m} ELSE @]
   /\ df' = [df EXCEPT ![s].names = IF n \in @ THEN (@ \ {n}) \cup {m} ELSE @]
-  /\ (IF RenameResets THEN Reset(s) ELSE UNCHANGED <<val, sch>>)
+  /\ (IF RenameResets THEN Reset(s) ELSE UNCHANGED <<val, dirty, sch>>)
   /\ UNCHANGED <<rn, breq, live>>
 
 Delete(s, n) ==
@@ -117,18 +137,25 @@ Delete(s, n) ==
   /\ df' = [df EXCEPT ![s].names = @ \ {n}]
   /\ Reset(s) /\ UNCHANGED <<rn, breq, live>>
 
-(* required_names.remove(n): the code does not touch the cached schema; the coherent rule rebuilds the *)
-(* "required" entry on every access (see SchemaView)                                                    *)
-Unrequire(s, n) ==
-  /\ live[s] /\ Tick /\ n \in Req(s)
-  /\ heap' = [heap EXCEPT ![rn[s].ref] = @ \ {n}]
-  /\ UNCHANGED <<el, rn, df, val, sch, breq, live>>
+(* edits through the live required-names set (add / remove / discard / clear; |= -= &= are sequences of  *)
+(* these): no derived state is touched -- the code does not touch the cached schema, the coherent rule  *)
+(* rebuilds the "required" entry on every access (see SchemaView) -- and the validator is not dropped   *)
+ReqOps == {"add", "remove", "discard", "clear"}
+EditRequired(s, op, n) ==
+  /\ live[s] /\ Tick
+  /\ (op = "add" => CanRequire(s, el[s], n))
+  /\ (op = "remove" => n \in Req(s))
+  /\ (op = "clear" => n = CHOOSE x \in Names : TRUE)
+  /\ LET R == Req(s)
+         new == IF op = "add" THEN R \cup {n} ELSE IF op = "clear" THEN {} ELSE R \ {n}
+     IN heap' = [heap EXCEPT ![rn[s].ref] = new]
+  /\ UNCHANGED <<el, rn, df, val, dirty, sch, breq, live>>
 
 (* defaults[n] = v: Defaults.__setitem__ checks the name against the bound grammar *)
 SetDefault(s, n) ==
   /\ live[s] /\ Tick /\ CanDefault(s, el[s], n)
   /\ df' = [df EXCEPT ![s].names = @ \cup {n}]
-  /\ UNCHANGED <<el, heap, rn, val, sch, breq, live>>
+  /\ UNCHANGED <<el, heap, rn, val, dirty, sch, breq, live>>
 
 (* what the builder exports as "required" when the code synchronises it with the required names *)
 Synced(s) == IF breq[s].none THEN [has |-> FALSE, req |-> {}]
@@ -140,39 +167,54 @@ Filled(s) == IF sch[s].some THEN sch[s] ELSE Built(s)
 
 (* grammar.schema *)
 Schema(s) ==
-  /\ live[s] /\ UNCHANGED <<el, heap, rn, df, val, live, nops>>
+  /\ Json /\ live[s] /\ UNCHANGED <<el, heap, rn, df, val, dirty, live, nops>>
   /\ sch' = [sch EXCEPT ![s] = Filled(s)]
   /\ breq' = [breq EXCEPT ![s] = IF Code /\ ~sch[s].some THEN AfterSync(s) ELSE @]
 
-(* validate(): compiles the validator when there is none; the code pops "required" from the cached dict *)
+(* validate(): compiles the validator when there is none; the code pops "required" from the cached dict  *)
+(* (BakeRequired: compiles the schema as it is, "required" included); pydantic rebuilds the model when   *)
+(* the flag is raised                                                                                    *)
+Compiled(s) == [some |-> TRUE, e |-> Filled(s).e, bake |-> BakeRequired, req |-> IF BakeRequired THEN Req(s) ELSE {}]
 Validate(s) ==
   /\ live[s] /\ UNCHANGED <<el, heap, rn, df, live, nops>>
-  /\ IF val[s].some THEN UNCHANGED <<val, sch, breq>>
-     ELSE /\ val' = [val EXCEPT ![s] = [some |-> TRUE, e |-> Filled(s).e]]
-          /\ sch' = [sch EXCEPT ![s] = IF Code THEN [Filled(s) EXCEPT !.has = FALSE] ELSE Filled(s)]
-          /\ breq' = [breq EXCEPT ![s] = IF Code /\ ~sch[s].some THEN AfterSync(s) ELSE @]
+  /\ IF Pyd
+     THEN /\ val' = [val EXCEPT ![s] = IF dirty[s] THEN [EmptyModel EXCEPT !.e = el[s]] ELSE @]
+          /\ dirty' = [dirty EXCEPT ![s] = FALSE]
+          /\ UNCHANGED <<sch, breq>>
+     ELSE /\ UNCHANGED dirty
+          /\ IF val[s].some THEN UNCHANGED <<val, sch, breq>>
+             ELSE /\ val' = [val EXCEPT ![s] = Compiled(s)]
+                  /\ sch' = [sch EXCEPT ![s] = IF Code THEN [Filled(s) EXCEPT !.has = FALSE] ELSE Filled(s)]
+                  /\ breq' = [breq EXCEPT ![s] = IF Code /\ ~sch[s].some THEN AfterSync(s) ELSE @]
 
 (* to_json(): nothing is cached; the code leaves the builder's required set cleared *)
 ToJson(s) ==
-  /\ live[s] /\ UNCHANGED <<el, heap, rn, df, val, sch, live, nops>>
+  /\ Json /\ live[s] /\ UNCHANGED <<el, heap, rn, df, val, dirty, sch, live, nops>>
   /\ breq' = [breq EXCEPT ![s] = IF Code THEN AfterSync(s) ELSE @]
 
 (* pickle round trip: the schema is built and shipped, the validator is not; the new builder receives *)
-(* the shipped schema                                                                                  *)
+(* the shipped schema.  Pydantic: __getstate__ rebuilds the model, the fields are shipped, __setstate__ *)
+(* creates a new model from them and rebuilds it                                                      *)
 Pickle(s) ==
   /\ live[s] /\ Tick /\ UNCHANGED <<el, heap, live>>
   /\ rn' = [rn EXCEPT ![s].owner = IF rn[s].owner = s THEN s ELSE @]
   /\ df' = [df EXCEPT ![s].owner = s]                 \* shipped as a plain dict, set again one by one
-  /\ val' = [val EXCEPT ![s] = NoVal]
-  /\ sch' = [sch EXCEPT ![s] = Filled(s)]
-  /\ breq' = [breq EXCEPT ![s] = IF Filled(s).has THEN SetB(Filled(s).req) ELSE NoneB]
+  /\ IF Pyd
+     THEN /\ val' = [val EXCEPT ![s] = [EmptyModel EXCEPT !.e = el[s]]]
+          /\ dirty' = [dirty EXCEPT ![s] = FALSE]
+          /\ UNCHANGED <<sch, breq>>
+     ELSE /\ val' = [val EXCEPT ![s] = NoVal]
+          /\ sch' = [sch EXCEPT ![s] = Filled(s)]
+          /\ breq' = [breq EXCEPT ![s] = IF Filled(s).has THEN SetB(Filled(s).req) ELSE NoneB]
+          /\ UNCHANGED dirty
 
 (* copy(): slot 2 becomes a copy of slot 1 *)
 Copy ==
   /\ live[1] /\ ~live[2] /\ Tick
   /\ live' = [live EXCEPT ![2] = TRUE]
   /\ el' = [el EXCEPT ![2] = el[1]]
-  /\ val' = [val EXCEPT ![2] = val[1]]
+  /\ val' = [val EXCEPT ![2] = IF Pyd THEN EmptyModel ELSE val[1]]   \* pydantic: a new model, then its fields
+  /\ dirty' = [dirty EXCEPT ![2] = IF Pyd THEN (IF CopyFlag = "inherit" THEN dirty[1] ELSE TRUE) ELSE @]
   /\ sch' = [sch EXCEPT ![2] = sch[1]]
   /\ breq' = [breq EXCEPT ![2] = IF breq[1].set = {} THEN NoneB ELSE breq[1]]
   /\ df' = [df EXCEPT ![2] = [names |-> df[1].names,
@@ -184,7 +226,8 @@ Copy ==
 
 Next == \/ \E s \in Slots, n \in Names :
              \/ \E t \in Types : AddTyped(s, n, t) \/ \E r \in BOOLEAN : AddSchema(s, n, t, r)
-             \/ AddNamed(s, n) \/ Delete(s, n) \/ Unrequire(s, n) \/ SetDefault(s, n)
+             \/ AddNamed(s, n) \/ Delete(s, n) \/ SetDefault(s, n)
+             \/ \E op \in ReqOps : EditRequired(s, op, n)
              \/ \E m \in Names : Rename(s, n, m)
         \/ \E s \in Slots : Schema(s) \/ Validate(s) \/ ToJson(s) \/ Pickle(s)
         \/ Copy
@@ -202,9 +245,23 @@ Exported(s) == [props |-> Dom(el[s]), has |-> Req(s) # {}, req |-> Req(s)]
 
 TypeOK == /\ el \in [Slots -> Elems] /\ heap \in [Slots -> SUBSET Names] /\ nops \in 0..MaxOps
           /\ \A s \in Slots : rn[s].ref \in Slots /\ rn[s].owner \in Slots
+          /\ dirty \in [Slots -> BOOLEAN] /\ (Json => \A s \in Slots : ~dirty[s])
 
 (* validation never uses a stale definition *)
-NoStaleValidator == \A s \in Slots : (live[s] /\ val[s].some) => val[s].e = el[s]
+NoStaleValidator == \A s \in Slots : (live[s] /\ val[s].some /\ ~dirty[s]) => val[s].e = el[s]
+(* the elements a validation would use now (JSON: the compiled validator if any; pydantic: the model,  *)
+(* rebuilt first when the flag is raised) are the current elements of that grammar object              *)
+Used(s) == IF Pyd THEN (IF dirty[s] THEN el[s] ELSE val[s].e)
+           ELSE (IF val[s].some THEN val[s].e ELSE el[s])
+ValidationCurrent == \A s \in Slots : live[s] => Used(s) = el[s]
+(* data (here: the set of names it holds, well typed) is accepted exactly when it holds every required *)
+(* name: the base class checks the current required names, then the compiled validator has its say     *)
+(* (the pydantic model of the code as read also requires every field: finding D1508)                   *)
+ImplAccepts(s, d) ==
+  /\ Req(s) \subseteq d
+  /\ (val[s].some /\ val[s].bake) => val[s].req \subseteq d
+  /\ (Pyd /\ Code) => Dom(Used(s)) \subseteq d
+ValidateMeaning == \A s \in Slots : live[s] => \A d \in SUBSET Names : ImplAccepts(s, d) <=> Req(s) \subseteq d
 (* required names only refer to existing elements *)
 WellFormed == \A s \in Slots : live[s] => Req(s) \subseteq Dom(el[s])
 (* defaults only refer to existing elements, and each grammar checks them against itself *)
